@@ -43,13 +43,28 @@ var c17JobPool = map[string]*jobSpec{
 	"jd": {Name: "jd", Rules: []relRule{{Action: "keep", Source: []string{"env"}, Regex: "prod|v2|"}}},
 }
 
+// c17Variant returns the configuration of a job: "ja" is the base variant, "ja#1" the same job with
+// other URL settings and relabel rules (a reload may change a job it keeps).
+func c17Variant(name string) *jobSpec {
+	base := strings.SplitN(name, "#", 2)[0]
+	j := *c17JobPool[base]
+	if strings.HasSuffix(name, "#1") {
+		j.Path = "/variant" + j.Path
+		j.Params = map[string][]string{"variant": {"1"}}
+		j.Rules = append(append([]relRule{}, j.Rules...), relRule{Action: "replace", Source: []string{"dc"}, Regex: "(.+)", Target: "datacenter", Replacement: strp("$1")})
+	}
+	return &j
+}
+
 func c17Config(jobs []string) string {
 	var js []*jobSpec
 	for _, n := range jobs {
-		js = append(js, c17JobPool[n])
+		js = append(js, c17Variant(n))
 	}
 	return configText(js...)
 }
+
+func baseName(n string) string { return strings.SplitN(n, "#", 2)[0] }
 
 func recC17() *vkit.Recorder {
 	r := vkit.Rec("C17", "exploration", "rapid operation sequences over the real TargetsDiscovery (fed through Run's channel) and the real Explore wired as cmd/kvass/coordinator.go wires them: update (full map over the configured jobs or a partial first round), reload (adds / removes / keeps jobs), read; a concurrent reader polls ActiveTargets throughout; model = per configured job the target set of its latest update as translated by the vendored Prometheus library; after every step active and dropped sets, the explorer's table and all earlier snapshots are compared with the model; non-trivial = sequence with a reload that keeps >=1 populated job and removes or adds another, followed by an update; distinct = digest of the sequence")
@@ -168,7 +183,7 @@ func runC17(rec *vkit.Recorder, c *c17Case) []vkit.Violation {
 	}
 	configured := map[string]bool{}
 	for _, j := range c.Initial {
-		configured[j] = true
+		configured[baseName(j)] = true
 	}
 	jobCfg := func(name string) *config.ScrapeConfig {
 		for _, j := range cm.ConfigInfo().Config.ScrapeConfigs {
@@ -344,8 +359,11 @@ func runC17(rec *vkit.Recorder, c *c17Case) []vkit.Violation {
 		case "reload":
 			next := map[string]refJob{}
 			nc := map[string]bool{}
-			for _, j := range op.Jobs {
+			for _, jv := range op.Jobs {
+				j := baseName(jv)
 				nc[j] = true
+				// a kept job keeps the targets of its latest update (as translated then), also when
+				// the reload changes the job's own settings
 				if r, ok := model[j]; ok {
 					next[j] = r
 				}
@@ -425,6 +443,9 @@ func genC17(t *rapid.T) *c17Case {
 		var out []string
 		for _, j := range all {
 			if rapid.IntRange(0, 2).Draw(t, label+"-"+j) != 0 {
+				if rapid.IntRange(0, 2).Draw(t, label+"-"+j+"-variant") == 0 {
+					j += "#1"
+				}
 				out = append(out, j)
 			}
 		}
@@ -442,7 +463,8 @@ func genC17(t *rapid.T) *c17Case {
 		case 0:
 			op := c17Op{Kind: "update", Update: map[string][]grpSpec{}}
 			partial := rapid.IntRange(0, 3).Draw(t, l+"-partial") == 0
-			for _, j := range cur {
+			for _, jv := range cur {
+				j := baseName(jv)
 				if partial && rapid.Bool().Draw(t, l+"-skip-"+j) {
 					continue
 				}
